@@ -1,10 +1,11 @@
 From Coq Require Import Extraction ExtrOcamlBasic List NArith.
-From FV Require Import Disk.Codec Disk.Tombstone Disk.Splitter Disk.Scan.
+From FV Require Import Disk.Codec Disk.Tombstone Disk.Splitter Disk.Scan Disk.BlobIndex.
 Extraction Language OCaml.
 Extraction "fmt_model.ml"
   encode_le decode_int encode_bool decode_bool encode_vec decode_vec decode_string
   write_header read_header serialize buffer_push align_up
   topen tappend fresh_device
   Splitter.split init_ctx
+  bidx_page bidx_read
   Scan.recover_block Scan.rd Scan.written
   N.add N.mul N.div N.modulo N.of_nat N.to_nat N.ltb N.eqb.
